@@ -498,8 +498,12 @@ fn build_debug_for_struct(
     let use_bounds = e.push_bounds_to_with(hattrs, kind, &mut wcb);
     let to_expr = |field: &FieldEntry| {
         let member = field.member();
-        // `&&` so that an unsized last field can be passed as `&dyn Debug`.
-        quote!(&&self.#member)
+        if field.index + 1 == fields.len() && may_be_unsized(&field.field.ty, &item.generics) {
+            // `&&` so that an unsized last field can be passed as `&dyn Debug`.
+            quote!(&&self.#member)
+        } else {
+            quote!(&self.#member)
+        }
     };
     let expr = build_debug_expr(
         this_ty_ident,
@@ -518,6 +522,38 @@ fn build_debug_for_struct(
             }
         }
     })
+}
+/// Returns true if `ty` is syntactically a type that can be unsized:
+/// a slice, `str`, a trait object, or a type parameter declared `?Sized`.
+fn may_be_unsized(ty: &Type, generics: &syn::Generics) -> bool {
+    fn is_maybe_sized(bound: &syn::TypeParamBound) -> bool {
+        matches!(bound, syn::TypeParamBound::Trait(t) if matches!(t.modifier, syn::TraitBoundModifier::Maybe(_)))
+    }
+    match ty {
+        Type::Slice(_) | Type::TraitObject(_) => true,
+        Type::Path(p) if p.qself.is_none() => {
+            let Some(ident) = p.path.get_ident() else {
+                return false;
+            };
+            if ident == "str" {
+                return true;
+            }
+            let in_params = generics
+                .type_params()
+                .any(|tp| &tp.ident == ident && tp.bounds.iter().any(is_maybe_sized));
+            let in_where = generics.where_clause.iter().any(|w| {
+                w.predicates.iter().any(|pred| match pred {
+                    syn::WherePredicate::Type(pt) => {
+                        matches!(&pt.bounded_ty, Type::Path(b) if b.qself.is_none() && b.path.is_ident(ident))
+                            && pt.bounds.iter().any(is_maybe_sized)
+                    }
+                    _ => false,
+                })
+            });
+            in_params || in_where
+        }
+        _ => false,
+    }
 }
 fn build_debug_for_enum(
     item: &ItemEnum,
